@@ -340,7 +340,8 @@ func genC16(c *Ctx) {
 		}
 		assets = append(assets, a)
 	}
-	cfgs := []string{"-", "segtimeline_1", "segtimelinenr_1", "start_60", "snr_5", "tsbd_10", "timesubsstpp_en", "segtimeline_1,timesubsstpp_en", "start_7,segtimelinenr_1"}
+	cfgs := []string{"-", "segtimeline_1", "segtimelinenr_1", "start_60", "snr_5", "tsbd_10", "timesubsstpp_en", "segtimeline_1,timesubsstpp_en", "start_7,segtimelinenr_1",
+		"segtimeline_1,ato_1.5", "segtimeline_1,ato_0.5", "ato_1.5", "segtimelinenr_1,ato_1"}
 	nSess := c.N(40, 300)
 	for i := 0; i < nSess; i++ {
 		a := assets[r.Intn(len(assets))]
